@@ -32,6 +32,11 @@ int64_t evaluate_incdec(
             if (!ptr_var || ptr_var->type != TYPE_POINTER) {
                 throw std::runtime_error("Not a pointer variable");
             }
+            // const T* : (*p)++ is a store through the pointer
+            if (ptr_var->is_pointee_const) {
+                throw std::runtime_error(
+                    "Cannot modify value through pointer to const (const T*)");
+            }
             ptr_value = ptr_var->value;
         } else {
             ptr_value = evaluate_expression_func(node->left->left.get());
@@ -177,6 +182,11 @@ int64_t evaluate_incdec(
             error_msg(DebugMsgId::UNDEFINED_VAR_ERROR,
                       node->left->name.c_str());
             throw std::runtime_error("Undefined variable");
+        }
+        // ++/-- is an assignment: same guard as for = and op=
+        if (var->is_const && var->is_assigned) {
+            throw std::runtime_error("Cannot modify const variable: " +
+                                     node->left->name);
         }
 
         // 型に応じた処理
@@ -345,6 +355,10 @@ int64_t evaluate_incdec(
         if (it == var->struct_members.end()) {
             throw std::runtime_error("Undefined struct member: " + member_name);
         }
+        if (var->is_const || (it->second.is_const && it->second.is_assigned)) {
+            throw std::runtime_error("Cannot modify member of const struct: " +
+                                     obj_name + "." + member_name);
+        }
 
         // 型に応じた処理
         if (it->second.type == TYPE_FLOAT) {
@@ -417,6 +431,10 @@ int64_t evaluate_incdec(
         Variable *array_var = interpreter.find_variable(array_name);
         if (!array_var) {
             throw std::runtime_error("Undefined array variable: " + array_name);
+        }
+        if (array_var->is_const && array_var->is_assigned) {
+            throw std::runtime_error("Cannot assign to const variable: " +
+                                     array_name);
         }
 
         // インデックスを評価
